@@ -11,6 +11,9 @@ type SchemaOpts struct {
 	Root     interface{}
 	BasePath string
 	_        struct{}
+
+	// visitedRefs holds the $ref's currently being unfolded by enclosing analyses
+	visitedRefs []string
 }
 
 // Schema analysis, will classify the schema according to known
@@ -21,9 +24,10 @@ func Schema(opts SchemaOpts) (*AnalyzedSchema, error) {
 	}
 
 	a := &AnalyzedSchema{
-		schema:   opts.Schema,
-		root:     opts.Root,
-		basePath: opts.BasePath,
+		schema:      opts.Schema,
+		root:        opts.Root,
+		basePath:    opts.BasePath,
+		visitedRefs: opts.visitedRefs,
 	}
 
 	a.initializeFlags()
@@ -54,6 +58,8 @@ type AnalyzedSchema struct {
 	schema   *spec.Schema
 	root     interface{}
 	basePath string
+
+	visitedRefs []string
 
 	hasProps           bool
 	hasAllOf           bool
@@ -102,6 +108,13 @@ func (a *AnalyzedSchema) inherits(other *AnalyzedSchema) {
 
 func (a *AnalyzedSchema) inferFromRef() error {
 	if a.hasRef {
+		ref := a.schema.Ref.String()
+		if isVisitedRef(a.visitedRefs, ref) {
+			// this schema contains itself (e.g. a map or an array of itself):
+			// stop unfolding here, the recursive occurrence does not qualify as a simple schema
+			return nil
+		}
+
 		sch := new(spec.Schema)
 		sch.Ref = a.schema.Ref
 		err := spec.ExpandSchema(sch, a.root, nil)
@@ -109,9 +122,10 @@ func (a *AnalyzedSchema) inferFromRef() error {
 			return err
 		}
 		rsch, err := Schema(SchemaOpts{
-			Schema:   sch,
-			Root:     a.root,
-			BasePath: a.basePath,
+			Schema:      sch,
+			Root:        a.root,
+			BasePath:    a.basePath,
+			visitedRefs: withVisitedRef(a.visitedRefs, ref),
 		})
 		if err != nil {
 			// NOTE(fredbi): currently the only cause for errors is
@@ -124,6 +138,23 @@ func (a *AnalyzedSchema) inferFromRef() error {
 	}
 
 	return nil
+}
+
+func isVisitedRef(visited []string, ref string) bool {
+	for _, v := range visited {
+		if v == ref {
+			return true
+		}
+	}
+
+	return false
+}
+
+func withVisitedRef(visited []string, ref string) []string {
+	refs := make([]string, 0, len(visited)+1)
+	refs = append(refs, visited...)
+
+	return append(refs, ref)
 }
 
 func (a *AnalyzedSchema) inferSimpleSchema() {
@@ -157,9 +188,10 @@ func (a *AnalyzedSchema) inferMap() error {
 	// maps
 	if a.schema.AdditionalProperties.Schema != nil {
 		msch, err := Schema(SchemaOpts{
-			Schema:   a.schema.AdditionalProperties.Schema,
-			Root:     a.root,
-			BasePath: a.basePath,
+			Schema:      a.schema.AdditionalProperties.Schema,
+			Root:        a.root,
+			BasePath:    a.basePath,
+			visitedRefs: a.visitedRefs,
 		})
 		if err != nil {
 			return err
@@ -184,9 +216,10 @@ func (a *AnalyzedSchema) inferArray() error {
 	if a.IsArray && a.hasItems {
 		if a.schema.Items.Schema != nil {
 			itsch, err := Schema(SchemaOpts{
-				Schema:   a.schema.Items.Schema,
-				Root:     a.root,
-				BasePath: a.basePath,
+				Schema:      a.schema.Items.Schema,
+				Root:        a.root,
+				BasePath:    a.basePath,
+				visitedRefs: a.visitedRefs,
 			})
 			if err != nil {
 				return err
